@@ -4468,6 +4468,41 @@ theorem editHistory_undo (S : Schema) (htr : compatTransB S = true) (htl : TextL
     (editOps_hyps S htr htl hdet hfill hwrap hlab hleaf hts hcl hst ops (Tr.init doc) rfl rfl ⟨hd, hn⟩ hb
       hall hres)
 
+/-- **a deletion as a whole operation, no hypothesis about the recorded step**: `Transform.delete(f, t)` =
+    `replace(f, t, Slice.empty)` on a valid BMP document in normal form whose element nodes are creatable
+    (`nodeAttrsOK`), `f ≤ t`: `OpResidual` — the full family guard of whatever step the Fitter answered, replace or
+    replace-around — holds, and the new document is BMP again.  Payload validity, shape, normal form of the emitted
+    slice (`replaceStep_empty_norm`), `gapFitsBack` (`fit_around_gapFitsBack`) and pair-alignment are all derived. -/
+theorem deleteOp_residual (S : Schema) (htr : compatTransB S = true) (htl : TextLoop S)
+    (hdet : PM.C11.detB S = true) (hfill : S.fillersOKB = true)
+    (hwrap : S.wrapOKB = true) (hlab : S.labelsOKB = true) (hleaf : PM.FromDom.leafOkB S = true)
+    (hts : textStableC S = true) (hcl : S.closableB = true) (hst : PM.FromDom.textStableB S = true)
+    (tr tr1 : Tr) (hlen : tr.steps.length = tr.docs.length) (hml : tr.maps.length = tr.steps.length)
+    (hI : FamilyInv S tr.doc) (hb : bmpDoc tr.doc = true) (hattrs : S.nodeAttrsOK tr.doc = true)
+    (f t : Nat) (hft : f ≤ t) (h : tr.runOp S (.replace f t Slice.empty) = some tr1) :
+    OpResidual S (.replace f t Slice.empty) tr tr1 ∧ bmpDoc tr1.doc = true := by
+  have h0 : EditHyps S (.replace f t Slice.empty) tr tr1 := ⟨hft, hattrs, Or.inl rfl⟩
+  have h1 := editResidual'_of_hyps S htl _ tr tr1 hlen hI hb h h0
+  have h2 := editResidual_of' S hdet hfill hwrap hlab hleaf hts hcl hst _ tr tr1 hlen hI hb h h1
+  exact editOp_residual S htr htl hdet hfill hwrap hlab hleaf hts hcl hst _ tr tr1 rfl hlen hml hI hb h h2
+
+/-- **typing / inserting inline leaves as a whole operation**: the only hypothesis about the recorded step is the
+    normal form of the emitted slice -/
+theorem insertInlineOp_residual (S : Schema) (htr : compatTransB S = true) (htl : TextLoop S)
+    (hdet : PM.C11.detB S = true) (hfill : S.fillersOKB = true)
+    (hwrap : S.wrapOKB = true) (hlab : S.labelsOKB = true) (hleaf : PM.FromDom.leafOkB S = true)
+    (hts : textStableC S = true) (hcl : S.closableB = true) (hst : PM.FromDom.textStableB S = true)
+    (tr tr1 : Tr) (hlen : tr.steps.length = tr.docs.length) (hml : tr.maps.length = tr.steps.length)
+    (hI : FamilyInv S tr.doc) (hb : bmpDoc tr.doc = true) (hattrs : S.nodeAttrsOK tr.doc = true)
+    (f t : Nat) (hft : f ≤ t) (sl : Slice) (hsl : sl.inlineLeaves S = true) (hslv : sl.closedValid S = true)
+    (hsb : sliceBmp sl = true) (h : tr.runOp S (.replace f t sl) = some tr1)
+    (hnorm : HistAll (fun s _ _ => RecordedNorm s) (appended tr tr1) tr1.doc) :
+    OpResidual S (.replace f t sl) tr tr1 ∧ bmpDoc tr1.doc = true := by
+  have h0 : EditHyps S (.replace f t sl) tr tr1 := ⟨hft, hattrs, Or.inr (Or.inl ⟨hsl, hslv, hsb, hnorm⟩)⟩
+  have h1 := editResidual'_of_hyps S htl _ tr tr1 hlen hI hb h h0
+  have h2 := editResidual_of' S hdet hfill hwrap hlab hleaf hts hcl hst _ tr tr1 hlen hI hb h h1
+  exact editOp_residual S htr htl hdet hfill hwrap hlab hleaf hts hcl hst _ tr tr1 rfl hlen hml hI hb h h2
+
 /-! #### non-vacuity of `editHistory_undo_bmp'`: schema `doc: para*`, `para: text*`, document `doc(para("ab"))` -/
 
 private def nvNt (name : String) (dfa : Array DfaState) : NodeType :=
